@@ -104,6 +104,8 @@ def check(ctx):
                 family['heap'].append(s)
             elif callee in READ_FUNCS:
                 pass
+            elif inv.readonly_param(P, s.cls, callee, idx):
+                pass       # handed to a helper of the same class that only reads it
             else:
                 ok, msg = False, f'the pending-event list escapes to {callee}()'
         elif kind in ('subscript-load', 'iter', 'test'):
@@ -152,56 +154,56 @@ def check(ctx):
                            'path before execute(); execute() is called exactly once')
     obs.append(o3)
     g = ctx.graph(Env, 'step', opaque=OPAQUE)
-    heads = []
-    for n in g.nodes.values():
+    from ..state import Analysis, State
+
+    def is_head_removal(c):
+        return (call_attr(c) == 'pop' and isinstance(c.func, ast.Attribute) and ast.unparse(c.func.value) == 'self._events' and len(c.args) == 1
+                and isinstance(c.args[0], ast.Constant) and c.args[0].value == 0) or \
+               (ast.unparse(c.func) in HEAD_REMOVE_FUNCS and c.args and ast.unparse(c.args[0]) == 'self._events')
+
+    def head_expr(an_, e, st, frame):
+        if isinstance(e, ast.Call) and is_head_removal(e):
+            return 'head'
+        return NotImplemented
+
+    def step_hook(an_, n, before, after):
+        st = after
         a = n.ast
-        if n.kind == 'stmt' and isinstance(a, ast.Assign) and isinstance(a.targets[0], ast.Name) and isinstance(a.value, ast.Call):
-            c = a.value
-            if (call_attr(c) == 'pop' and ast.unparse(c.func.value) == 'self._events') or \
-               (ast.unparse(c.func) in HEAD_REMOVE_FUNCS and c.args and ast.unparse(c.args[0]) == 'self._events'):
-                heads.append((n, a.targets[0].id))
-    o3.count()
-    if len(heads) != 1:
-        o3.fail(P, 'Environment.step', 'next_event = self._events.pop(0)', f'expected exactly one removal of the head bound to a local, found {len(heads)}',
-                file=Env.mod.path, line=P.method(Env, 'step')[1].lineno)
-    else:
-        hn, var = heads[0]
-        o3.witness('head')
-        execs = [n for n in g.nodes.values() if any(call_attr(c) == 'execute' for c in calls_at(g, n))]
+        for c in calls_at(g, n):
+            if is_head_removal(c):
+                st = st.with_flag('popped2' if 'popped' in st.flags else 'popped')
+            elif call_attr(c) in ('pop', 'remove') and isinstance(c.func, ast.Attribute) and ast.unparse(c.func.value) == 'self._events':
+                st = st.with_flag('removed-other')
+            if call_attr(c) == 'execute' and isinstance(c.func, ast.Attribute):
+                if an_.ev(c.func.value, before, n.frame) == 'head':
+                    st = st.with_flag('executed2' if 'executed' in st.flags else 'executed')
+                    if 'clock' not in st.flags:
+                        st = st.with_flag('executed-before-clock')
+                else:
+                    st = st.with_flag('executed-other')
+        if n.kind == 'stmt' and isinstance(a, ast.Assign) and any(is_self_attr(t, '_now') for t in a.targets):
+            v = a.value
+            good = isinstance(v, ast.Attribute) and v.attr == 'time' and an_.ev(v.value, before, n.frame) == 'head'
+            st = st.with_flag('clock' if good else 'clock-other')
+        return st
+    an3 = Analysis(P, g, [])
+    an3.expr_hooks.append(head_expr)
+    an3.node_hooks.append(step_hook)
+    res3 = ctx.explore(an3, [State({})])
+    o3.require(res3.exits(), 'Environment.step has no normal exit')
+    stepfn = P.method(Env, 'step')[1]
+    for st in res3.exits():
         o3.count()
-        good_exec = [n for n in execs if any(call_attr(c) == 'execute' and ast.unparse(c.func.value) == var for c in calls_at(g, n))]
-        if len(execs) != 1 or len(good_exec) != 1:
-            o3.fail(P, 'Environment.step', f'{var}.execute()', f'execute() must be called exactly once, on the popped head `{var}`; found {len(execs)} execute call(s), {len(good_exec)} on the head',
-                    node=(execs[0] if execs else hn))
+        fl = {f for f in st.flags if f.startswith(('popped', 'executed', 'clock', 'removed'))}
+        if fl == {'popped', 'clock', 'executed'}:
+            o3.witness('head->clock->execute')
         else:
-            en = good_exec[0]
-            o3.witness('execute')
-            # exactly once: not in a cycle, and on every normal path to the exit
-            if en.id in g.reach([m for _, m in g.succ[en.id]], follow=lambda l: l != 'exc'):
-                o3.fail(P, 'Environment.step', None, 'execute() can be reached twice in one step', node=en)
-            if g.exit in g.reach([g.entry], avoid={en.id}, follow=lambda l: l != 'exc'):
-                o3.fail(P, 'Environment.step', None, 'a normal path through step() skips execute()', node=en)
-            if not g.dominated_by(en.id, {hn.id}):
-                o3.fail(P, 'Environment.step', None, 'execute() is reachable without popping the head first', node=en)
-            # the variable is not re-bound between pop and execute
-            rebinds = [n for n in g.nodes.values() if n.id != hn.id and n.kind in ('stmt', 'for') and
-                       any(isinstance(t, ast.Name) and t.id == var and isinstance(t.ctx, ast.Store) for e in own_exprs(n) for t in walk_now(e))]
-            o3.count()
-            for r in rebinds:
-                o3.fail(P, 'Environment.step', None, f'the popped head `{var}` is re-bound before being executed', node=r)
-            # clock assignment dominates execute
-            clock = [n for n in g.nodes.values() if n.kind == 'stmt' and isinstance(n.ast, ast.Assign)
-                     and any(is_self_attr(t, '_now') for t in n.ast.targets)]
-            o3.count()
-            goodclock = [n for n in clock if ast.unparse(n.ast.value) == f'{var}.time']
-            if not goodclock or not g.dominated_by(en.id, {n.id for n in goodclock}):
-                o3.fail(P, 'Environment.step', f'self._now = {var}.time', "the clock is not assigned the head's time on every path before execute()", node=en)
-            else:
-                o3.witness('clock')
-                o3.sample({'head': hn.src(), 'clock': goodclock[0].src(), 'execute': en.src(), 'file': P.rel(hn.file), 'lines': [hn.line, goodclock[0].line, en.line]})
-            for n in clock:
-                if n not in goodclock:
-                    o3.fail(P, 'Environment.step', None, "the clock is assigned something other than the executed event's time", node=n)
+            o3.fail(P, 'Environment.step', 'next_event = self._events.pop(0); self._now = next_event.time; next_event.execute()',
+                    f'a step must remove the head of the pending-event list once, set the clock to its time and then execute it once; this path does {sorted(fl)}',
+                    file=Env.mod.path, line=stepfn.lineno, path=res3.path_lines(g.exit, st))
+    heads = [n for n in g.nodes.values() if any(is_head_removal(c) for c in calls_at(g, n))]
+    if heads:
+        o3.sample({'head': heads[0].src(), 'file': P.rel(heads[0].file), 'line': heads[0].line, 'paths': len(res3.exits())})
 
     o4 = Ob('C01.4', 'K1', 'the clock (_now) is written only by the reset (a constant) and by step()')
     obs.append(o4)
@@ -210,8 +212,8 @@ def check(ctx):
         ok = False
         if s.cls is Env and isinstance(s.stmt, ast.Assign):
             v = s.stmt.value
-            if s.func.name == 'step':
-                ok = True        # value checked by C01.3
+            if s.func.name in inv.covered(P, {'step'}):
+                ok = True        # value checked by C01.3 (helpers reachable only from step() count as step())
             elif isinstance(v, ast.Constant) and v.value == 0 and any(
                     isinstance(t, ast.Attribute) and t.attr == '_events' and isinstance(t.ctx, ast.Store) for t in ast.walk(s.func)):
                 ok = True
@@ -460,16 +462,18 @@ def unpause_time_form(P, o):
     Env = P.cls('Environment')
     dk, fn = P.method(Env, 'unpause_matching_events')
     N = Normalizer(P, Env)
+    from ..norm import single_defs
+    defs = single_defs(fn)      # locals with one definition (e.g. `resume_time = self.now`) are substituted
     writes = []
     for n in ast.walk(fn):
         if isinstance(n, ast.AugAssign) and isinstance(n.target, ast.Attribute) and n.target.attr == 'time':
             v = n.value if isinstance(n.op, ast.Add) else ast.UnaryOp(ast.USub(), n.value) if isinstance(n.op, ast.Sub) else None
             ev = ast.unparse(n.target.value)
             load = ast.Attribute(n.target.value, 'time', ast.Load())
-            writes.append((n, ev, N.norm(ast.BinOp(load, ast.Add(), v)) if v is not None else None))
+            writes.append((n, ev, N.norm(ast.BinOp(load, ast.Add(), v), defs) if v is not None else None))
         elif isinstance(n, ast.Assign) and any(isinstance(t, ast.Attribute) and t.attr == 'time' for t in n.targets):
             t = [t for t in n.targets if isinstance(t, ast.Attribute)][0]
-            writes.append((n, ast.unparse(t.value), N.norm(n.value)))
+            writes.append((n, ast.unparse(t.value), N.norm(n.value, defs)))
     o.count()
     if len(writes) != 1:
         o.fail(P, 'Environment.unpause_matching_events', 'event.time += self.now - event.paused_at',
